@@ -103,6 +103,8 @@ func newRevWorldRoot(n int, o, c []int, p purposeKind, override func(kind string
 var (
 	reOCSP = regexp.MustCompile(`^http://ocsp\.test/c(\d+)/r(\d+)`)
 	reCRL  = regexp.MustCompile(`^http://crl\.test/c(\d+)/dp(\d+)/(base|delta)$`)
+	// distribution points of one certificate that differ only in their query string (a partitioned CRL service)
+	reCRLQ = regexp.MustCompile(`^http://crl\.test/c(\d+)/partitioned/base\?dp=(\d+)$`)
 )
 
 // source identifies one URL of the world.
@@ -126,7 +128,17 @@ func parseSource(u string) (source, bool) {
 		b, _ := strconv.Atoi(m[2])
 		return source{kind: "crl", cert: a, idx: urlIndexOfLabel[b], delta: m[3] == "delta"}, true
 	}
+	if m := reCRLQ.FindStringSubmatch(u); m != nil {
+		a, _ := strconv.Atoi(m[1])
+		b, _ := strconv.Atoi(m[2])
+		return source{kind: "crl", cert: a, idx: urlIndexOfLabel[b]}, true
+	}
 	return source{}, false
+}
+
+// crlQueryURL is the j-th distribution point of certificate ci in the partitioned spelling.
+func crlQueryURL(ci, j int) string {
+	return fmt.Sprintf("http://crl.test/c%d/partitioned/base?dp=%d", ci, urlLabel[j])
 }
 
 // ocspByName / crlByName pick behaviours of the C04 / C05 alphabets.
